@@ -18,7 +18,7 @@ NOISE = ['; a comment line\n', '\n', '#ifdef FLEXIBLE\n', '#endif\n', '#include 
          ';commented 1 2 3\n', '#define X 1\n', ' ; indented comment\n', '#else\n', '#ifndef POSRES\n', '#undef X\n',
          '#if 1\n', '#elif 0\n',
          # comments that look like section headers, comments with brackets, directives with a trailing comment
-         '   ; a ;\n', ';[ angles ]\n', '; [ position_restraints ]\n', '; --- [ exclusions ] ---\n', '; see ref. [1]\n',
+         '   ; a ;\n', ';#include "x.itp"\n', ';#ifdef X\n', ';[ angles ]\n', '; [ position_restraints ]\n', '; --- [ exclusions ] ---\n', '; see ref. [1]\n',
          '#ifdef FLEXIBLE ; softer terms\n', '#define gb_1 0.1 1.57e7 ; H-OA\n', '#endif ; FLEXIBLE\n']
 
 
@@ -135,7 +135,7 @@ def gen_top(rng, n=None, kind=None, decorate=None, repeated=False, multi_res=Non
         t = trailing[int(rng.integers(0, len(trailing)))]
         classes.add('trailing:' + t)
         return {'plain': '', 'single': ' ; c1', 'empty': ' ;', 'multiple': ' ; a ; b', 'hash': ' ; # third',
-                'nospace': ';tight', 'multiple-last-empty': ' ; a ; see note 3 ;', 'semicolons-only': ' ;;'}[t]
+                'nospace': ';tight', 'hash-nospace': ';#3 is the tail', 'multiple-last-empty': ' ; a ; see note 3 ;', 'semicolons-only': ' ;;'}[t]
 
     def emit_section(secname, lines, indent=True):
         hdr = '[ %s ]' if not decorate else ['[ %s ]', '[%s]', '[  %s  ]', ' [ %s ]'][int(rng.integers(0, 4))]
